@@ -17,7 +17,6 @@ type Event struct {
 	po   *Event // program-order predecessor (same goroutine)
 }
 
-
 func (ex *Exec) newEvent(g *G, kind string, ch *ChanObj, cell *Value) *Event {
 	e := &Event{id: len(ex.events), g: g.id, kind: kind, ch: ch, cell: cell, po: g.lastEv}
 	ex.events = append(ex.events, e)
